@@ -181,7 +181,7 @@ func RandomOps(r *rand.Rand, o GenOpts) []Op {
 		ops = append(ops, Op{K: KComments})
 	}
 	if r.Intn(5) == 0 {
-		ops = append(ops, Op{K: KSkip, Names: pickN(r, append(append([]string{}, pool...), "my-x", "div", "br", "img", "svg"), 1+r.Intn(2))})
+		ops = append(ops, Op{K: KSkip, Names: pickN(r, append(append([]string{}, pool...), "my-x", "div", "br", "img", "svg", "bgsound", "basefont", "keygen", "frame", "hr", "input", "wbr", "col", "param", "source", "track", "embed", "area", "meta", "link", "base"), 1+r.Intn(3))})
 	}
 	if r.Intn(5) == 0 {
 		names := pickN(r, DefaultSkip, 1+r.Intn(3))
